@@ -82,8 +82,9 @@ pub open spec fn iter_order_of_g(s: GroupSet) -> Seq<Seq<char>> { s.order() }
 pub struct PackageBuilder { pub recommends: Vec<Dependency> }
 impl PackageBuilder {
 '''),
-    Block(BUILDER, 'prepare_data', impl='impl PackageBuilder', exclusive=True, keep_start=True,
-          start='        for user in &users_to_create {', end='        let mut provide_names = Vec::new();',
+    Block(BUILDER, 'prepare_data', impl='impl PackageBuilder', exclusive=True,
+          # delimited by the statements around the two loops, so that the loop variables may be renamed
+          start='.push(Dependency::rpmlib("LargeFiles", "4.12.0-1".to_owned()));\n        }\n', end='        let mut provide_names = Vec::new();',
           subs=[('let mut i_u: usize = 0;', 'let users_iter = users_to_create.iteration_order();\n        let mut i_u: usize = 0;', 1,
                  'R26-iterating a set = iterating its elements in its iteration order'),
                 ('while i_u < users_to_create.len()', 'while i_u < users_iter.len()', 1, 'R26'),
